@@ -1,0 +1,15 @@
+//go:build verif
+
+package httpserver
+
+// This file exists only in builds with the `verif` tag (verification harness
+// /verif, property C17). Nothing here is reachable from a normal build.
+
+// VerifQUICMaxHeaderBytes reports the request-header limit of the server's
+// QUIC listener; ok is false when the server has none.
+func VerifQUICMaxHeaderBytes(s *Server) (n int, ok bool) {
+	if s.quicServer == nil {
+		return 0, false
+	}
+	return s.quicServer.MaxHeaderBytes, true
+}
